@@ -5,7 +5,7 @@
    itself - is checked against the deterministic model of Buffer.tla.  One JSON object per line:
 
      {"op":"New", "b":[..]}                      a buffer constructed with contents b begins a trace
-     {"op":<call>, <arguments>, <observations>}  one public call
+     {"op":<call>, <arguments>, <observations>}  one public call ("NilString": String() on a nil pointer)
 
    arguments      n   integer argument (len(p) of Read, Next/Truncate/Grow count, byte, rune, delimiter)
                   b   byte argument (Write/WriteString payload; for ReadFrom what the reader delivered)
@@ -54,15 +54,16 @@ Do(s, e) ==
       [] e.op = "WriteTo" -> OpWriteTo(s, e.wn, e.werr)
       [] e.op = "Len" -> OpLen(s)
       [] e.op \in {"Bytes", "String"} -> OpContents(s)
+      [] e.op = "NilString" -> OpNilString(s)
 
 \* which result fields a call has
 HasN(op) == op \in {"Write", "WriteString", "WriteRune", "Read", "ReadByte", "ReadRune", "ReadFrom", "WriteTo", "Len"}
 HasM(op) == op = "ReadRune"
-HasB(op) == op \in {"Read", "Next", "ReadBytes", "ReadString", "Bytes", "String"}
+HasB(op) == op \in {"Read", "Next", "ReadBytes", "ReadString", "Bytes", "String", "NilString"}
 
 KnownOp(e) == e.op \in {"Write", "WriteString", "WriteByte", "WriteRune", "Read", "Next", "ReadByte", "ReadRune",
                         "UnreadByte", "UnreadRune", "ReadBytes", "ReadString", "Truncate", "Reset", "Grow",
-                        "ReadFrom", "WriteTo", "Len", "Bytes", "String"}
+                        "ReadFrom", "WriteTo", "Len", "Bytes", "String", "NilString"}
 
 Match(s, e, o) ==
     /\ e.pan = o.pan
